@@ -80,6 +80,13 @@ Notation deval_ := (deval E CT ST V tok DE_TABLE).
 Notation dexec_ := (dexec E CT ST V tok DE_TABLE).
 Notation run := (interp E CT ST V tok DE_TABLE).
 
+(* a call's answer with the `single_precision` flag it leaves (the caller may be do_deserialize_f32, which runs deserialize_number with the flag set) *)
+Definition obs (sg : bool) (X : res (rval A * mach)) : tres (A * st) * bool :=
+  match X with
+  | Ok (v, m) => (as_tres (Ok (v, mkMach (mst m) false (mbuf m) (mraw m))), Bool.eqb (msingle m) sg)
+  | _ => (as_tres X, true)
+  end.
+
 (* ---- one interpreter step (by computation); [deval], [dexec], [dblock] are kept folded otherwise ---- *)
 Lemma deval_S f e l m : deval_ (S f) e l m =
     match e with
@@ -266,7 +273,7 @@ Proof. reflexivity. Qed.
 Ltac red1 :=
   cbn [select_o select_b select_r select_p ScanAst.pat_match ScanAst.bpat_match ScanAst.bind_opt conv_frame dlookup
        String.eqb Ascii.eqb Bool.eqb app bind_o known tri_prim set_st lose_st mst msingle mbuf mraw bind ret_of rpat_match ppat_match
-       vcall_of dbody fst snd orb meth_call end_name end_st Nat.add tbind DeTyped.lift as_tres as_unit pcall_run numcall fixpos];
+       vcall_of dbody fst snd orb meth_call end_name end_st Nat.add tbind DeTyped.lift as_tres as_unit pcall_run numcall fixpos obs];
   unfold set_st, lose_st; cbn [mst msingle mbuf mraw].
 Ltac dstep :=
   first [rewrite dblock_nil | rewrite dblock_cons | rewrite deval_S | rewrite dexec_S]; cbv beta iota; red1.
@@ -524,4 +531,385 @@ Proof.
   destruct (b =? 123); red1; repeat dstep. { frame_now. }
   pit_now (or_introl eq_refl).
 Qed.
-End V. End P.
+
+(* ---- deserialize_enum ---- *)
+Theorem deserialize_enum_src : forall s fuel, (16 <= fuel)%nat ->
+  as_tres (run fuel "deserialize_enum" s) = DeTyped.deserialize_enum E (V VcEnumMap) (V VcEnumUnit) s.
+Proof.
+  intros s fuel Hf. destruct (fuel_split _ _ Hf) as [f ->]. enter. unfold init_mach, DeTyped.deserialize_enum.
+  repeat dstep. ws_now s.
+  destruct (b =? 123); red1; repeat dstep.
+  { match goal with |- context[enter E ?s] => destruct (enter E s) as [?s2| | |] end; red1; try reflexivity; repeat dstep.
+    unfold do_visit at 1; red1.
+    match goal with |- context[match V ?c ?s with _ => _ end] => destruct (V c s) as [[?a ?s3]| | | |] end;
+      red1; repeat dstep; try reflexivity; leave_now.
+    ws_now s4. destruct (b0 =? 125); red1; repeat dstep; reflexivity. }
+  destruct (b =? 34); red1; repeat dstep. { visit_now. }
+  reflexivity.
+Qed.
+
+(* ---- the common tail  match value { Ok(value) => Ok(value), Err(err) => Err(self.fix_position(err)) }  is the model's [fix_position] ---- *)
+Definition FIX_TAIL := DRet (XMatchRes "value" [(RpOk (Some "value"), XOk "value"); (RpErr (Some "err"), XErrFix "err")]).
+Lemma fix_tail f (r : rval A) m l :
+  as_tres (let* o := dblock (dexec_ (S (S (S (S (S f)))))) [FIX_TAIL] (("value", LRes r) :: l) m in
+           match o with OR r' m' => Ok (r', m') | _ => Panic end) = fix_position E (as_tres (Ok (r, m))).
+Proof.
+  unfold FIX_TAIL. destruct m as [ms sg buf raw]. repeat dstep.
+  destruct r as [a| |[c i|k]|]; red1; repeat dstep; try reflexivity.
+  - destruct sg, ms; reflexivity.
+  - destruct sg; reflexivity.
+  - destruct sg; reflexivity.
+  - destruct ms as [s'|]; red1; destruct sg; reflexivity.
+  - destruct sg; reflexivity.
+Qed.
+
+(* `let value = self.f(visitor);` followed by the common tail *)
+Lemma call_fix_tail f g fn s1 l (spec : tres (A * st)) :
+  as_tres (dcall_fn (dexec_ g) DE_TABLE fn (mkMach (Some s1) false [] None)) = spec ->
+  as_tres (let* o := (let* o := (let* o := deval_ (S g) (XCall fn) l (mkMach (Some s1) false [] None) in
+                                 match o with OV r m' => Ok (OF (("value", LRes r) :: l) m') | OR _ _ => Ok o | OF _ _ => Panic end) in
+                      match o with OF l' m' => dblock (dexec_ (S (S (S (S (S f)))))) [FIX_TAIL] l' m' | _ => Ok o end) in
+           match o with OR r m' => Ok (r, m') | _ => Panic end) = fix_position E spec.
+Proof.
+  intros <-. rewrite deval_S. cbv beta iota.
+  destruct (dcall_fn (dexec_ g) DE_TABLE fn _) as [[r m']| | |]; cbn [bind]; [apply fix_tail|reflexivity ..].
+Qed.
+
+(* a call in tail position: `self.f(visitor)` as the whole body *)
+Lemma call_tail (X : res (rval A * mach)) (ex : @dexec_t A) :
+  (let* o := (let* o := (let* o := (let* (r, m') := X in Ok (OV r m')) in ret_of o) in
+              match o with OF l' m' => dblock ex [] l' m' | _ => Ok o end) in
+   match o with OR r m' => Ok (r, m') | _ => Panic end) = X.
+Proof. destruct X as [[r m']| | |]; reflexivity. Qed.
+
+Lemma delegate_src fn target : dfind fn DE_TABLE = Some (mkD [DRet (XCall target)]) ->
+  forall f s, run (S (S (S f))) fn s = run (S f) target s.
+Proof.
+  intros H f s. unfold interp. unfold dcall_fn at 1. rewrite H. cbv beta iota. red1. repeat dstep. apply call_tail.
+Qed.
+
+Theorem delegations_src : forall f s,
+  run (S (S (S f))) "deserialize_char" s = run (S f) "deserialize_str" s /\
+  run (S (S (S f))) "deserialize_string" s = run (S f) "deserialize_str" s /\
+  run (S (S (S f))) "deserialize_identifier" s = run (S f) "deserialize_str" s /\
+  run (S (S (S f))) "deserialize_byte_buf" s = run (S f) "deserialize_bytes" s /\
+  run (S (S (S f))) "deserialize_unit_struct" s = run (S f) "deserialize_unit" s /\
+  run (S (S (S f))) "deserialize_tuple" s = run (S f) "deserialize_seq" s /\
+  run (S (S (S f))) "deserialize_tuple_struct" s = run (S f) "deserialize_seq" s /\
+  run (S (S (S f))) "deserialize_i8" s = run (S f) "deserialize_number" s /\
+  run (S (S (S f))) "deserialize_i16" s = run (S f) "deserialize_number" s /\
+  run (S (S (S f))) "deserialize_i32" s = run (S f) "deserialize_number" s /\
+  run (S (S (S f))) "deserialize_i64" s = run (S f) "deserialize_number" s /\
+  run (S (S (S f))) "deserialize_u8" s = run (S f) "deserialize_number" s /\
+  run (S (S (S f))) "deserialize_u16" s = run (S f) "deserialize_number" s /\
+  run (S (S (S f))) "deserialize_u32" s = run (S f) "deserialize_number" s /\
+  run (S (S (S f))) "deserialize_u64" s = run (S f) "deserialize_number" s /\
+  run (S (S (S f))) "deserialize_f64" s = run (S f) "deserialize_number" s /\
+  run (S (S (S f))) "deserialize_i128" s = run (S f) "do_deserialize_i128" s /\
+  run (S (S (S f))) "deserialize_u128" s = run (S f) "do_deserialize_u128" s.
+Proof. intros f s. repeat split; apply delegate_src; reflexivity. Qed.
+
+(* ---- deserialize_any ---- *)
+Definition any_spec (s : st) : tres (A * st) :=
+  let^ (o, s1) := Read.parse_whitespace E s in
+  match o with
+  | None => DeTyped.lift (peek_error E s1 EofWhileParsingValue)
+  | Some b =>
+    fix_position E
+      (if b =? 110 then let^ s2 := Read.parse_ident E lit_ull (discard s1) in V VcUnit s2
+       else if b =? 116 then let^ s2 := Read.parse_ident E lit_rue (discard s1) in V (VcBool true) s2
+       else if b =? 102 then let^ s2 := Read.parse_ident E lit_alse (discard s1) in V (VcBool false) s2
+       else if b =? 45 then let^ (p, s2) := parse_any_number E false (discard s1) in V (VcNum p) s2
+       else if is_digit b then let^ (p, s2) := parse_any_number E true s1 in V (VcNum p) s2
+       else if b =? 34 then let^ (str, bo, s2) := parse_str E (discard s1) in V (VcStr str bo) s2
+       else if b =? 91 then DeTyped.frame E De.end_seq end_seq_st (V VcSeq) s1
+       else if b =? 123 then DeTyped.frame E De.end_map end_map_st (V VcMap) s1
+       else DeTyped.lift (peek_error E s1 ExpectedSomeValue))
+  end.
+
+Ltac num_now :=
+  match goal with |- context[parse_any_number E ?pos ?s] => destruct (parse_any_number E pos s) as [[?p ?s2]| | |] end;
+  red1; try reflexivity; repeat dstep.
+
+Theorem deserialize_any_src : forall s fuel, (16 <= fuel)%nat -> as_tres (run fuel "deserialize_any" s) = any_spec s.
+Proof.
+  intros s fuel Hf. destruct (fuel_split _ _ Hf) as [f ->]. enter. unfold init_mach, any_spec.
+  repeat dstep. ws_now s.
+  change ((48 <=? b) && (b <=? 57)) with (is_digit b).
+  destruct (b =? 110); red1; repeat dstep. { ident_now. visit_now. }
+  destruct (b =? 116); red1; repeat dstep. { ident_now. visit_now. }
+  destruct (b =? 102); red1; repeat dstep. { ident_now. visit_now. }
+  destruct (b =? 45); red1; repeat dstep. { num_now. visit_now. }
+  destruct (is_digit b); red1; repeat dstep. { num_now. visit_now. }
+  destruct (b =? 34); red1; repeat dstep. { str_now. visit_now. }
+  destruct (b =? 91); red1; repeat dstep. { frame_now. }
+  destruct (b =? 123); red1; repeat dstep. { frame_now. }
+  reflexivity.
+Qed.
+
+(* ---- deserialize_bytes (deserialize_byte_buf delegates to it) ---- *)
+Definition bytes_spec (s : st) : tres (A * st) :=
+  let^ (o, s1) := Read.parse_whitespace E s in
+  match o with
+  | None => DeTyped.lift (peek_error E s1 EofWhileParsingValue)
+  | Some b =>
+    fix_position E
+      (if b =? 34 then let^ (str, bo, s2) := parse_str_raw E (discard s1) in V (VcBytes str bo) s2
+       else if b =? 91 then DeTyped.deserialize_seq E (V VcSeq) s1
+       else peek_invalid_type E s1)
+  end.
+
+Lemma deserialize_seq_call s g : (16 <= g)%nat ->
+  as_tres (dcall_fn (dexec_ g) DE_TABLE "deserialize_seq" (mkMach (Some s) false [] None)) = DeTyped.deserialize_seq E (V VcSeq) s.
+Proof. intros H. exact (deserialize_seq_src s g H). Qed.
+
+Theorem deserialize_bytes_src : forall s fuel, (34 <= fuel)%nat -> as_tres (run fuel "deserialize_bytes" s) = bytes_spec s.
+Proof.
+  intros s fuel Hf. destruct (fuel_split _ _ Hf) as [f ->]. enter. unfold init_mach, bytes_spec.
+  repeat dstep. ws_now s.
+  destruct (b =? 34); red1; repeat dstep.
+  { match goal with |- context[parse_str_raw E ?s] => destruct (parse_str_raw E s) as [[[?str ?bo] ?s2]| | |] end;
+      red1; try reflexivity; repeat dstep; rewrite ?meth_bytes. visit_now. }
+  destruct (b =? 91); red1.
+  { apply call_fix_tail. apply deserialize_seq_call. lia. }
+  repeat dstep. pit_now (or_introl eq_refl).
+Qed.
+
+(* ---- deserialize_ignored_any ---- *)
+Theorem deserialize_ignored_any_src : forall s fuel, (6 <= fuel)%nat ->
+  as_tres (run fuel "deserialize_ignored_any" s) = (let^ s1 := ignore_value E s in V VcUnit s1).
+Proof.
+  intros s fuel Hf. destruct (fuel_split _ _ Hf) as [f ->]. enter. unfold init_mach.
+  repeat dstep. destruct (ignore_value E s) as [s1| | |]; red1; try reflexivity. repeat dstep. visit_now.
+Qed.
+
+(* ---- deserialize_raw_value, deserialize_newtype_struct ---- *)
+Definition raw_spec (s : st) : tres (A * st) :=
+  let^ (_, s0) := Read.parse_whitespace E s in
+  let^ s1 := ignore_value E s0 in
+  let span := firstn (off s1 - off s0) (rest s0) in
+  match rk E with
+  | RStr => V (VcRaw span) s1
+  | _ => if utf8_valid span then V (VcRaw span) s1 else DeTyped.lift (error E s1 InvalidUnicodeCodePoint)
+  end.
+
+Theorem deserialize_raw_value_src : forall s fuel, (8 <= fuel)%nat -> as_tres (run fuel "deserialize_raw_value" s) = raw_spec s.
+Proof.
+  intros s fuel Hf. destruct (fuel_split _ _ Hf) as [f ->]. enter. unfold init_mach, raw_spec.
+  repeat dstep. rewrite cur_ws_eq. destruct (Read.parse_whitespace E s) as [[o s0]| | |]; red1; try reflexivity.
+  repeat dstep. destruct (ignore_value E s0) as [s1| | |]; red1; try reflexivity. repeat dstep.
+  destruct (rk E); [destruct (utf8_valid _); [visit_now|reflexivity] | visit_now | destruct (utf8_valid _); [visit_now|reflexivity]].
+Qed.
+
+Lemma deserialize_raw_value_call s g : (8 <= g)%nat ->
+  as_tres (dcall_fn (dexec_ g) DE_TABLE "deserialize_raw_value" (mkMach (Some s) false [] None)) = raw_spec s.
+Proof. intros H. exact (deserialize_raw_value_src s g H). Qed.
+
+Lemma if_eq {T} (b : bool) (x x' y y' : T) : x = x' -> y = y' -> (if b then x else y) = (if b then x' else y').
+Proof. intros -> ->. reflexivity. Qed.
+
+Theorem deserialize_newtype_struct_src : forall s fuel, (12 <= fuel)%nat ->
+  as_tres (run fuel "deserialize_newtype_struct" s) = if tok then raw_spec s else V VcNewtype s.
+Proof.
+  intros s fuel Hf. destruct (fuel_split _ _ Hf) as [f ->]. enter. unfold init_mach.
+  rewrite dblock_cons, dexec_S. cbv beta iota.
+  match goal with |- as_tres (bind (bind (if tok then ?X else ?Y) ?K) ?K2) = _ =>
+    transitivity (if tok then as_tres (bind (bind X K) K2) else as_tres (bind (bind Y K) K2)); [destruct tok; reflexivity|] end.
+  apply if_eq.
+  - unfold dscope. rewrite dblock_cons, dexec_S. cbv beta iota. rewrite deval_S. cbv beta iota.
+    match goal with |- context[dcall_fn (dexec_ ?g) DE_TABLE "deserialize_raw_value" ?m] =>
+      pose proof (deserialize_raw_value_call s g ltac:(lia)) as Hs;
+      destruct (dcall_fn (dexec_ g) DE_TABLE "deserialize_raw_value" m) as [[r m']| | |] end;
+      rewrite <- Hs; clear Hs; red1; reflexivity.
+  - red1. repeat dstep. visit_now.
+Qed.
+
+(* ---- deserialize_number (with the `single_precision` flag the machine carries), do_deserialize_f32, deserialize_f32 ---- *)
+Definition number_spec (sg : bool) (s : st) : tres (A * st) :=
+  let^ (o, s1) := Read.parse_whitespace E s in
+  match o with
+  | None => DeTyped.lift (peek_error E s1 EofWhileParsingValue)
+  | Some b =>
+    fix_position E
+      (if b =? 45 then let^ (p, s2) := (if sg then parse_integer_s else parse_integer) E false (discard s1) in V (VcNum p) s2
+       else if is_digit b then let^ (p, s2) := (if sg then parse_integer_s else parse_integer) E true s1 in V (VcNum p) s2
+       else peek_invalid_type E s1)
+  end.
+
+Lemma pw_peek s b s1 : Read.parse_whitespace E s = Ok (Some b, s1) -> forall b' s', peek_or_null E s1 = Ok (b', s') -> b' = b.
+Proof.
+  unfold Read.parse_whitespace, peek_or_null, peek, at_end. set (s0 := advance _ s). clearbody s0.
+  destruct (rest s0) as [|c r] eqn:Hr.
+  - destruct (tm E); discriminate.
+  - intros H. inversion H. subst. cbn. intros b' s' H'. inversion H'. reflexivity.
+Qed.
+
+Ltac int_now :=
+  match goal with
+  | |- context[parse_integer E ?pos ?s] => destruct (parse_integer E pos s) as [[?p ?s2]| | |]
+  | |- context[parse_integer_s E ?pos ?s] => destruct (parse_integer_s E pos s) as [[?p ?s2]| | |]
+  end; red1; try reflexivity; repeat dstep.
+
+Theorem deserialize_number_call : forall sg s buf raw g, (16 <= g)%nat ->
+  obs sg (dcall_fn (dexec_ g) DE_TABLE "deserialize_number" (mkMach (Some s) sg buf raw)) = (number_spec sg s, true).
+Proof.
+  intros sg s buf raw g Hf. destruct (fuel_split _ _ Hf) as [f ->]. unfold dcall_fn at 1.
+  match goal with |- context[dfind ?fn DE_TABLE] =>
+    let d := eval vm_compute in (dfind fn DE_TABLE) in change (dfind fn DE_TABLE) with d end.
+  cbv beta iota; red1. unfold number_spec.
+  repeat dstep. rewrite cur_ws_eq.
+  destruct (Read.parse_whitespace E s) as [[[b|] s1]| | |] eqn:Hw; red1; repeat dstep; try (destruct sg; reflexivity).
+  change ((48 <=? b) && (b <=? 57)) with (is_digit b).
+  destruct (b =? 45) eqn:H45; red1; repeat dstep. { destruct sg; int_now; visit_now. }
+  destruct (is_digit b) eqn:Hd; red1; repeat dstep. { destruct sg; int_now; visit_now. }
+  assert (Hpk : sg = false \/ forall b' s', peek_or_null E s1 = Ok (b', s') -> b' <> 45 /\ is_digit b' = false).
+  { right. intros b' s' H'. rewrite (pw_peek _ _ _ Hw _ _ H'). split; [apply N.eqb_neq; exact H45|exact Hd]. }
+  pit_now Hpk; destruct sg; reflexivity.
+Qed.
+
+Theorem deserialize_number_src : forall s fuel, (16 <= fuel)%nat ->
+  as_tres (run fuel "deserialize_number" s) = number_spec false s.
+Proof.
+  intros s fuel Hf. pose proof (deserialize_number_call false s [] None fuel Hf) as H. unfold interp, init_mach.
+  destruct (dcall_fn (dexec_ fuel) DE_TABLE "deserialize_number" _) as [[v [ms sg bf rw]]| | |]; cbn [obs mst msingle mbuf mraw] in H.
+  - injection H as H1 H2. destruct sg; [discriminate|]. exact H1.
+  - injection H as H1. exact H1.
+  - injection H as H1. exact H1.
+  - injection H as H1. exact H1.
+Qed.
+
+Theorem do_deserialize_f32_src : forall s fuel, (24 <= fuel)%nat ->
+  as_tres (run fuel "do_deserialize_f32" s) = number_spec true s.
+Proof.
+  intros s fuel Hf. destruct (fuel_split _ _ Hf) as [f ->]. enter. unfold init_mach.
+  repeat dstep.
+  match goal with |- context[dcall_fn (dexec_ ?g) DE_TABLE "deserialize_number" ?m] =>
+    pose proof (deserialize_number_call true s [] None g ltac:(lia)) as H;
+    destruct (dcall_fn (dexec_ g) DE_TABLE "deserialize_number" m) as [[v [ms sg bf rw]]| | |] end;
+    cbn [obs mst msingle mbuf mraw] in H; injection H as H1; rewrite <- H1; red1; repeat dstep; reflexivity.
+Qed.
+
+Lemma do_deserialize_f32_call s g : (24 <= g)%nat ->
+  as_tres (dcall_fn (dexec_ g) DE_TABLE "do_deserialize_f32" (mkMach (Some s) false [] None)) = number_spec true s.
+Proof. intros H. exact (do_deserialize_f32_src s g H). Qed.
+Lemma deserialize_number_call0 s g : (16 <= g)%nat ->
+  as_tres (dcall_fn (dexec_ g) DE_TABLE "deserialize_number" (mkMach (Some s) false [] None)) = number_spec false s.
+Proof. intros H. exact (deserialize_number_src s g H). Qed.
+
+(* the two cfg(float_roundtrip) instances of deserialize_f32 *)
+Theorem deserialize_f32_src : forall s fuel, (30 <= fuel)%nat ->
+  as_tres (run fuel "deserialize_f32" s) = if float_roundtrip (cf E) then number_spec true s else number_spec false s.
+Proof.
+  intros s fuel Hf. destruct (fuel_split _ _ Hf) as [f ->]. enter. unfold init_mach.
+  rewrite dblock_cons, dexec_S. cbv beta iota. unfold dscope.
+  destruct (float_roundtrip (cf E)); rewrite dblock_cons, dexec_S; cbv beta iota; rewrite deval_S; cbv beta iota.
+  - match goal with |- context[dcall_fn (dexec_ ?g) DE_TABLE "do_deserialize_f32" ?m] =>
+      pose proof (do_deserialize_f32_call s g ltac:(lia)) as Hs;
+      destruct (dcall_fn (dexec_ g) DE_TABLE "do_deserialize_f32" m) as [[r m']| | |] end;
+      rewrite <- Hs; clear Hs; red1; reflexivity.
+  - match goal with |- context[dcall_fn (dexec_ ?g) DE_TABLE "deserialize_number" ?m] =>
+      pose proof (deserialize_number_call0 s g ltac:(lia)) as Hs;
+      destruct (dcall_fn (dexec_ g) DE_TABLE "deserialize_number" m) as [[r m']| | |] end;
+      rewrite <- Hs; clear Hs; red1; reflexivity.
+Qed.
+
+(* ---- do_deserialize_i128 / do_deserialize_u128 ---- *)
+Lemma digit_cases c : is_digit c = true ->
+  c = 48 \/ c = 49 \/ c = 50 \/ c = 51 \/ c = 52 \/ c = 53 \/ c = 54 \/ c = 55 \/ c = 56 \/ c = 57.
+Proof. unfold is_digit. intros H. apply andb_prop in H. destruct H as [H1 H2]. apply N.leb_le in H1, H2. lia. Qed.
+
+(* `buf.parse()` on text that starts with a digit *)
+Lemma str_parse_digit signed c r : is_digit c = true ->
+  str_parse_int signed (c :: r) =
+  (let v := digits_val (c :: r) 0 in
+   if all_digits (c :: r) && in_range (if signed then I128 else U128) v then Some v else None).
+Proof.
+  intros H. destruct (digit_cases c H) as [->|[->|[->|[->|[->|[->|[->|[->|[->| ->]]]]]]]]]; reflexivity.
+Qed.
+
+Lemma scan128_head s t s2 : Num.scan_integer128 E s = Ok (t, s2) -> exists c r, t = c :: r /\ is_digit c = true.
+Proof.
+  unfold Num.scan_integer128. destruct (next E s) as [[[c|] s1]| | |]; cbn; try discriminate.
+  destruct (c =? 48) eqn:H48.
+  - destruct (peek_or_null E s1) as [[c2 s2']| | |]; cbn; try discriminate.
+    destruct (is_digit c2); [discriminate|]. intros H. inversion H. exists 48, []. split; reflexivity.
+  - destruct (is_digit19 c) eqn:H19; [|discriminate].
+    destruct (peek_or_null E _) as [[c2 s2']| | |]; cbn; try discriminate.
+    intros H. inversion H. eexists _, _. split; [reflexivity|].
+    unfold is_digit19 in H19. unfold is_digit. apply andb_prop in H19. destruct H19 as [Hlo Hhi].
+    apply N.leb_le in Hlo, Hhi. apply andb_true_intro. split; apply N.leb_le; lia.
+Qed.
+
+Definition i128_spec (s : st) : tres (A * st) :=
+  let^ (o, s1) := Read.parse_whitespace E s in
+  match o with
+  | None => DeTyped.lift (peek_error E s1 EofWhileParsingValue)
+  | Some b =>
+    let neg := b =? 45 in
+    let^ (buf, s2) := Num.scan_integer128 E (if neg then discard s1 else s1) in
+    match parse_i128 neg buf with
+    | Some z => fix_position E (V (VcI128 z) s2)
+    | None => DeTyped.lift (error E s2 NumberOutOfRange)
+    end
+  end.
+Definition u128_spec (s : st) : tres (A * st) :=
+  let^ (o, s1) := Read.parse_whitespace E s in
+  match o with
+  | None => DeTyped.lift (peek_error E s1 EofWhileParsingValue)
+  | Some b =>
+    if b =? 45 then DeTyped.lift (peek_error E s1 NumberOutOfRange)
+    else
+      let^ (buf, s2) := Num.scan_integer128 E s1 in
+      match parse_u128 buf with
+      | Some z => fix_position E (V (VcU128 z) s2)
+      | None => DeTyped.lift (error E s2 NumberOutOfRange)
+      end
+  end.
+
+Theorem do_deserialize_i128_src : forall s fuel, (16 <= fuel)%nat -> as_tres (run fuel "do_deserialize_i128" s) = i128_spec s.
+Proof.
+  intros s fuel Hf. destruct (fuel_split _ _ Hf) as [f ->]. enter. unfold init_mach, i128_spec.
+  repeat dstep. rewrite cur_ws_eq.
+  destruct (Read.parse_whitespace E s) as [[[b|] s1]| | |]; red1; try reflexivity; repeat dstep; try reflexivity.
+  destruct (b =? 45); red1; repeat dstep; rewrite cur_scan128_eq.
+  - destruct (Num.scan_integer128 E (discard s1)) as [[t s2]| | |] eqn:Hsc; red1; try reflexivity; repeat dstep.
+    change (str_parse_int true (45 :: t)) with (parse_i128 true t).
+    destruct (parse_i128 true t) as [z|]; red1; repeat dstep; [visit_now|reflexivity].
+  - destruct (Num.scan_integer128 E s1) as [[t s2]| | |] eqn:Hsc; red1; try reflexivity; repeat dstep.
+    destruct (scan128_head _ _ _ Hsc) as (c & r & -> & Hc). rewrite (str_parse_digit true c r Hc).
+    change (let v := digits_val (c :: r) 0 in if all_digits (c :: r) && in_range I128 v then Some v else None) with (parse_i128 false (c :: r)).
+    destruct (parse_i128 false (c :: r)) as [z|]; red1; repeat dstep; [visit_now|reflexivity].
+Qed.
+
+Theorem do_deserialize_u128_src : forall s fuel, (16 <= fuel)%nat -> as_tres (run fuel "do_deserialize_u128" s) = u128_spec s.
+Proof.
+  intros s fuel Hf. destruct (fuel_split _ _ Hf) as [f ->]. enter. unfold init_mach, u128_spec.
+  repeat dstep. rewrite cur_ws_eq.
+  destruct (Read.parse_whitespace E s) as [[[b|] s1]| | |]; red1; try reflexivity; repeat dstep; try reflexivity.
+  destruct (b =? 45); red1; repeat dstep; [reflexivity|]. rewrite cur_scan128_eq.
+  destruct (Num.scan_integer128 E s1) as [[t s2]| | |] eqn:Hsc; red1; try reflexivity; repeat dstep.
+  destruct (scan128_head _ _ _ Hsc) as (c & r & -> & Hc). rewrite (str_parse_digit false c r Hc).
+  change (let v := digits_val (c :: r) 0 in if all_digits (c :: r) && in_range U128 v then Some v else None) with (parse_u128 (c :: r)).
+  destruct (parse_u128 (c :: r)) as [z|]; red1; repeat dstep; [visit_now|reflexivity].
+Qed.
+End V.
+End P.
+
+(* not vacuous: the interpreted source of deserialize_seq on  [ ]x  with a visitor that reads nothing, and of `end` on trailing blanks *)
+Example deserialize_seq_runs :
+  as_tres (interp (mkEnv RSlice TEof (mkCfg false false false false)) CURSOR_TABLE SCAN_TABLE
+             (fun c s => match c with VcSeq => TOk (7, s) | _ => TUnpos MInvalidType s end) false DE_TABLE 20 "deserialize_seq"
+             (init_st [32; 91; 32; 93; 120]))
+  = TOk (7, mkSt [120] 4 false Gen.Tables.DEPTH0).
+Proof. vm_compute. reflexivity. Qed.
+Example deserialize_seq_visitor_error_is_positioned_after_end_seq :
+  as_tres (interp (mkEnv RSlice TEof (mkCfg false false false false)) CURSOR_TABLE SCAN_TABLE
+             (fun c s => match c with VcSeq => @TUnpos (N * st) MInvalidLength s | _ => TUnpos MInvalidType s end) false DE_TABLE 20 "deserialize_seq"
+             (init_st [91; 32; 93; 120]))
+  = TErr (Message MInvalidLength) 3.
+Proof. vm_compute. reflexivity. Qed.
+Example end_runs :
+  as_unit (interp (mkEnv RSlice TEof (mkCfg false false false false)) CURSOR_TABLE SCAN_TABLE
+             (fun c s => @TUnpos (N * st) MInvalidType s) false DE_TABLE 20 "end" (init_st [32; 10]))
+  = Ok (mkSt [] 2 false Gen.Tables.DEPTH0).
+Proof. vm_compute. reflexivity. Qed.
